@@ -28,6 +28,7 @@ def passing(junit):
 def main():
     args = sys.argv[1:]
     all_checks = "--all-checks" in args
+    own_only = "--own" in args          # only the check of the change's own property (and skip the baseline run)
     args = [a for a in args if not a.startswith("--")]
     root = os.path.join(VERIF, "benign")
     ids = args or sorted(d for d in os.listdir(root) if os.path.isdir(os.path.join(root, d)))
@@ -50,11 +51,14 @@ def main():
                 continue
             junit = wt + ".xml"
             env = dict(os.environ, PYTHONPATH=wt, PYTHONDONTWRITEBYTECODE="1")
-            sh(f"/venv/bin/python -m pytest -q -p no:cacheprovider --timeout=900 --continue-on-collection-errors --junitxml={junit}", cwd=wt, env=env)
-            missing = sorted(STABLE - passing(junit))
-            os.remove(junit)
+            if own_only:
+                missing = []
+            else:
+                sh(f"/venv/bin/python -m pytest -q -p no:cacheprovider --timeout=900 --continue-on-collection-errors --junitxml={junit}", cwd=wt, env=env)
+                missing = sorted(STABLE - passing(junit))
+                os.remove(junit)
             row["baseline_missing"] = missing
-            checks = ALL if all_checks else [prop] + [c for c in GROUPS[GROUP_OF[prop]] if c != prop]
+            checks = ALL if all_checks else ([prop] if own_only else [prop] + [c for c in GROUPS[GROUP_OF[prop]] if c != prop])
             for c in checks:
                 env = dict(os.environ, VERIF_REPO=wt, VERIF_EVIDENCE_DIR=wt + "-ev", VERIF_REPLAY_DIR=wt + "-rp")
                 p = subprocess.run(f"cd {VERIF} && ./check {c} --tier quick", shell=True, capture_output=True, text=True, env=env)
